@@ -38,6 +38,7 @@ from inscripta.biocantor.io.gff3.exc import (
     EmptyGFF3Exception,
     GFF3ChildParentMismatchError,
     GFF3LocusTagError,
+    GFF3ParserError,
 )
 from inscripta.biocantor.io.models import AnnotationCollectionModel
 from inscripta.biocantor.io.parser import ParsedAnnotationRecord
@@ -85,7 +86,10 @@ def _convert_features_to_transcript(
     exon_ends = [x.end for x in exons]
     start = exon_starts[0]
     end = exon_ends[-1]
-    assert start <= end
+    if start > end:
+        raise GFF3ParserError(
+            f"Transcript on {chrom} has an exon or CDS row whose end ({end}) lies before its start ({start + 1})"
+        )
     strand = Strand.from_symbol(strand)
 
     if len(cds) == 0:
